@@ -176,7 +176,15 @@ def classes():
         "signals": [_meth("levelChanged")],
         "slots": [_meth("setLevel", args=[("int", "v")])],
     }
-    return [vf, sub, other, plot]
+    # non-public inheritance of a KNOWN class: a VfHidden is a QWidget, and nothing that expects a VfWidget may take it
+    hidden = {
+        "className": "VfHidden", "qualifiedClassName": "VfHidden", "object": True,
+        "superClasses": [{"access": "public", "name": "QWidget"}, {"access": "protected", "name": "VfWidget"}],
+        "properties": [_prop("depth", "int", "depth", "setDepth", "depthChanged", False)],
+        "signals": [_meth("depthChanged")],
+        "slots": [_meth("setDepth", args=[("int", "v")])],
+    }
+    return [vf, sub, other, plot, hidden]
 
 
 def write(path):
